@@ -170,7 +170,7 @@ pub fn run_c10(tier: Tier) -> i32
     if loom_exit == 2 { return 2; }
     finish("C10", tier, t0, runs,
         json!({"loom": crate::loom_leg::describe()}),
-        "sequential: all histories of prepare / clone / drop / gc / manual despawn / reparent over 3 entities and <= 4 live \
+        "sequential: all histories of prepare / clone / drop / gc / manual despawn / reparent / give-clone-to-a-component-of-another-entity over 3 entities and <= 4 live \
          clones, plus at most one burst (300 [thorough: or 3000] fresh entities prepared, optionally despawned by hand, \
          two clones each dropped before the next collection) to the stated depth, deduplicated by (reference-model state, observed liveness, pending signals); \
          concurrent: all interleavings (loom, real src/ecs/auto_despawn.rs) of clone drops on two worker threads with \
